@@ -168,7 +168,7 @@ impl Report {
                     eprintln!("  {} :: {}", sig, vs[0].what);
                     lines += 1;
                 }
-                new_sigs.push(json!({"signature": sig, "cases": vs.len(), "example": vs[0].what}));
+                new_sigs.push(json!({"signature": sig, "cases": vs.len(), "example": vs[0].what, "more_examples": vs.iter().skip(1).take(8).map(|v| v.what.clone()).collect::<Vec<_>>()}));
             }
         }
         for l in &known_lines {
